@@ -15,6 +15,7 @@ import (
 	"math/big"
 	"sort"
 	"strconv"
+	"strings"
 
 	ethcrypto "github.com/ethereum/go-ethereum/crypto"
 )
@@ -22,7 +23,8 @@ import (
 // PRIMITIVE. ProbeAttestation records the shape of (message, attestation) against the attester set
 // under the names used by the concretiser. Natively it does nothing: the values were already
 // rewritten by Begin.
-func ProbeAttestation(msgName, attName, attesterPrefix string, msg, att []byte, attesters []string, maxT int) {}
+func ProbeAttestation(msgName, attName, attesterPrefix string, msg, att []byte, attesters []string, maxT int) {
+}
 
 func seededKey(seed, i int) *ecdsa.PrivateKey {
 	for ctr := 0; ; ctr++ {
@@ -61,16 +63,30 @@ func probeInt(r *Replay, k string) (int, bool) {
 	return n, err == nil
 }
 
-// concretiseAttestations rewrites r.Values for every attestation shape present in r.Probes.
+// concretiseAttestations rewrites r.Values for every attestation shape present in r.Probes (one per
+// probed message; independent key pools).
 func concretiseAttestations(r *Replay) string {
-	msgName, ok := r.Probes["shape/msg"]
-	if !ok {
-		return ""
+	var tags []string
+	for k := range r.Probes {
+		if strings.HasPrefix(k, "shape@") && strings.HasSuffix(k, "/msg") {
+			tags = append(tags, strings.TrimSuffix(k, "msg"))
+		}
 	}
-	attName := r.Probes["shape/att"]
-	pfx := r.Probes["shape/attesters"]
-	nAtt, _ := probeInt(r, "shape/n")
-	maxT, _ := probeInt(r, "shape/maxT")
+	sort.Strings(tags)
+	for i, tag := range tags {
+		if why := concretiseOne(r, tag, 1+i); why != "" {
+			return why
+		}
+	}
+	return ""
+}
+
+func concretiseOne(r *Replay, tag string, seedBase int) string {
+	msgName := r.Probes[tag+"msg"]
+	attName := r.Probes[tag+"att"]
+	pfx := r.Probes[tag+"attesters"]
+	nAtt, _ := probeInt(r, tag+"n")
+	maxT, _ := probeInt(r, tag+"maxT")
 	var msg []byte
 	if v := r.Values[msgName]; v != "nil" {
 		var err error
@@ -86,11 +102,11 @@ func concretiseAttestations(r *Replay) string {
 	digest := ethcrypto.Keccak256(msg)
 
 	type slot struct {
-		present bool
-		vraw    byte
-		recok   bool
-		member  int // attester index or -1
-		negOf   int // non-member whose key has the X coordinate of this attester (its negated key), or -1
+		present  bool
+		vraw     byte
+		recok    bool
+		member   int // attester index or -1
+		negOf    int // non-member whose key has the X coordinate of this attester (its negated key), or -1
 		lessPrev bool
 	}
 	slots := make([]slot, maxT)
@@ -101,25 +117,25 @@ func concretiseAttestations(r *Replay) string {
 		s := &slots[i]
 		s.present = true
 		s.vraw = att[65*i+64]
-		x, _ := probeInt(r, fmt.Sprintf("shape/recok/%d", i))
+		x, _ := probeInt(r, fmt.Sprintf(tag+"recok/%d", i))
 		s.recok = x != 0
 		s.member, s.negOf = -1, -1
 		for j := 0; j < nAtt; j++ {
-			if y, _ := probeInt(r, fmt.Sprintf("shape/member/%d/%d", i, j)); y != 0 {
+			if y, _ := probeInt(r, fmt.Sprintf(tag+"member/%d/%d", i, j)); y != 0 {
 				s.member = j
 				break
 			}
 		}
 		if s.member < 0 {
 			for j := 0; j < nAtt; j++ {
-				if y, _ := probeInt(r, fmt.Sprintf("shape/xeq/%d/%d", i, j)); y != 0 {
+				if y, _ := probeInt(r, fmt.Sprintf(tag+"xeq/%d/%d", i, j)); y != 0 {
 					s.negOf = j
 					break
 				}
 			}
 		}
 		if i > 0 {
-			y, _ := probeInt(r, fmt.Sprintf("shape/less/%d", i))
+			y, _ := probeInt(r, fmt.Sprintf(tag+"less/%d", i))
 			s.lessPrev = y != 0
 		}
 	}
@@ -127,7 +143,7 @@ func concretiseAttestations(r *Replay) string {
 	shortLen := make([]int, nAtt)
 	for j := 0; j < nAtt; j++ {
 		shortLen[j] = -1
-		if kl, ok := probeInt(r, fmt.Sprintf("shape/keylen/%d", j)); ok && kl != 65 {
+		if kl, ok := probeInt(r, fmt.Sprintf(tag+"keylen/%d", j)); ok && kl != 65 {
 			shortLen[j] = kl
 		}
 	}
@@ -147,9 +163,10 @@ func concretiseAttestations(r *Replay) string {
 	// roles: attesters 0..nAtt-1, plus one outsider per slot
 	nRoles := nAtt + maxT
 	pool := 10 + nRoles
-	seed := 1
+	seed := seedBase
 	if v, ok := r.Values["__seed"]; ok {
-		seed, _ = strconv.Atoi(v)
+		x, _ := strconv.Atoi(v)
+		seed += 100 * x
 	}
 	keys := make([]*ecdsa.PrivateKey, pool)
 	pubHex := make([]string, pool)
@@ -241,9 +258,9 @@ func concretiseAttestations(r *Replay) string {
 	// signatures
 	out := append([]byte{}, att...)
 	type prevSig struct {
-		role int
+		role  int
 		model []byte
-		real []byte
+		real  []byte
 	}
 	var done []prevSig
 	for i := 0; i < maxT; i++ {
